@@ -802,48 +802,24 @@ func c17Round3(c *Ctx) {
 			c.Undecided("R17o", "ZIP64 end record read", p.Pos(fn.Pos()), "no ReadAt at the locator's offset found")
 		}
 		// saturation tests of the classic end record
-		del := map[edge]bool{}
-		nSat := 0
-		var isSat func(v ssa.Value, d int) bool
-		isSat = func(v ssa.Value, d int) bool {
-			if d > 6 {
+		// an edge on which some field of the classic end record is known to be saturated: the true
+		// side of `field == max`, the false side of `field != max` (also behind a named boolean)
+		satCmp := func(bo *ssa.BinOp) bool {
+			tn, f, _ := p.fieldLoad(stripConv(bo.X))
+			k, isK := constInt(bo.Y)
+			if !strings.HasSuffix(tn, "zipEndRecord") || !isK {
 				return false
 			}
-			switch x := v.(type) {
-			case *ssa.BinOp:
-				if x.Op != token.EQL {
-					return false
-				}
-				tn, f, _ := p.fieldLoad(stripConv(x.X))
-				k, isK := constInt(x.Y)
-				if !strings.HasSuffix(tn, "zipEndRecord") || !isK {
-					return false
-				}
-				return (f == "TotalCDCount" && k == 0xffff) || (f == "CDCount" && k == 0xffff) || (f == "CDSize" && k == 0xffffffff) || (f == "CDOffset" && k == 0xffffffff)
-			case *ssa.Phi:
-				// `a || b || c` kept in a variable: every incoming value is a saturation test or a constant
-				for _, e := range x.Edges {
-					if _, isB := boolConst(e); isB {
-						continue
-					}
-					if !isSat(e, d+1) {
-						return false
-					}
-				}
-				return len(x.Edges) > 0
-			}
-			return false
+			return (f == "TotalCDCount" && k == 0xffff) || (f == "CDCount" && k == 0xffff) || (f == "CDSize" && k == 0xffffffff) || (f == "CDOffset" && k == 0xffffffff)
 		}
-		for _, b := range fn.Blocks {
-			ifi, ok := b.Instrs[len(b.Instrs)-1].(*ssa.If)
-			if !ok {
-				continue
+		del := passEdges(fn, Guard{Name: "a field of the end record is saturated", Match: func(f Fact) bool {
+			bo, ok := f.V.(*ssa.BinOp)
+			if !ok || !satCmp(bo) {
+				return false
 			}
-			if isSat(ifi.Cond, 0) {
-				nSat++
-				del[edge{b.Index, 0}] = true
-			}
-		}
+			return (bo.Op == token.EQL && f.Kind == IsTrue) || (bo.Op == token.NEQ && f.Kind == IsFalse)
+		}})
+		nSat := len(del)
 		for i, in := range z64 {
 			seen := reach(fn, []*ssa.BasicBlock{fn.Blocks[0]}, del, nil)
 			c.Check(nSat > 0 && !seen[in.Block().Index], "R17o", fmt.Sprintf("ZIP64 end record read#%d only behind a saturated field", i+1), p.Pos(in.Pos()), fmt.Sprintf("%d saturation tests", nSat),
